@@ -436,12 +436,16 @@ func scenarioEvents(s scenario, all []scenario, r *rand.Rand, tier string, b *tr
 		emit(s.ev("desc-byte2"), 0, s.msg, s.sig, p)
 	}
 	// signature length changes (content otherwise genuine)
-	for _, d := range []int{-33, -32, -31, -1, 1, 31, 32, 33, 64} {
+	// (appended bytes random; multiples of 32 that make the derived height wrap in 4, 8 or 16 bits)
+	for _, d := range []int{-33, -32, -31, -1, 1, 31, 32, 33, 64, 32 * 15, 32 * 16, 32 * 17, 32 * 255, 32 * 256, 32 * 257, 32 * 512, 32 * 65536} {
 		var sg []byte
 		if d < 0 {
 			sg = dup(s.sig[:len(s.sig)+d])
 		} else {
 			sg = append(dup(s.sig), make([]byte, d)...)
+			if d >= 32*15 {
+				r.Read(sg[len(s.sig):])
+			}
 		}
 		e := s.ev("siglen")
 		e.Genuine = false
